@@ -256,8 +256,20 @@ class Exec:
         self.fnname = "%s.%s" % (module.modname.split(".")[-1], qual)
 
     # ------------------------------------------------------------------ obligations
+    TOLERABLE = {"key-present": "KeyError", "index-in-range": "IndexError", "pop-nonempty": "IndexError",
+                 "nonempty-min": "ValueError", "nonempty-max": "ValueError", "nonempty-mean": "ValueError",
+                 "unpack-arity": "ValueError", "nonempty-argwhere": "IndexError"}
+
     def oblige(self, st, goal, kind, node, note=""):
         if not self.checking:
+            return
+        exc = self.TOLERABLE.get(kind)
+        if exc and exc in getattr(self.contract, "may_raise", []) and not self.binders:
+            # the contract allows this exception: not an obligation but an exceptional path
+            if goal is True:
+                return
+            st.pending.append((list(st.pc), znot(goal) if not isinstance(goal, bool) else (not goal), exc))
+            st.assume(goal)
             return
         line = getattr(node, "lineno", 0)
         if goal is True:
@@ -323,6 +335,18 @@ class Exec:
             self.exits.append(s)
         for g in getattr(c, "ghosts", None) or []:
             if not g.get("hit"):
+                anchor = g.get("after") or g.get("before")
+                present = False
+                for n2 in ast.walk(self.fnode):
+                    if isinstance(n2, ast.stmt):
+                        t2 = ast.unparse(n2)
+                        if isinstance(n2, (ast.For, ast.While, ast.If, ast.Try, ast.With)):
+                            t2 = t2.split("\n")[0]
+                        if t2.startswith(anchor):
+                            present = True
+                            break
+                if present:
+                    continue      # the statement exists but no explored path reaches it
                 raise EngineError("%s: ghost hook anchored at %r matches no statement (contract does not resolve)"
                                   % (self.fnname, g.get("after") or g.get("before")))
         self.canaries = []
@@ -434,8 +458,10 @@ class Exec:
         if m is None:
             raise EngineError("%s:L%d: statement %s outside the subset" % (self.fnname, node.lineno, type(node).__name__))
         ghosts = getattr(self.contract, "ghosts", None)
-        if ghosts and not isinstance(node, (ast.For, ast.While, ast.If, ast.Try, ast.With)):
+        if ghosts:
             text = ast.unparse(node)
+            if isinstance(node, (ast.For, ast.While, ast.If, ast.Try, ast.With)):
+                text = text.split("\n")[0]      # compound statements: the header line
             for g in ghosts:
                 if g.get("before") and text.startswith(g["before"]):
                     g["hit"] = g.get("hit", 0) + 1
@@ -570,6 +596,21 @@ class Exec:
 
     def stmt_Assert(self, node, st):
         v = self.truth(self.eval(node.test, st))
+        if "AssertionError" in getattr(self.contract, "may_raise", []):
+            # the contract tolerates this defensive check failing (partial correctness)
+            if v is True:
+                return [st]
+            out = []
+            f = st.fork()
+            f.assume(znot(v))
+            if v is not False and self.feasible(f) or v is False:
+                f.status, f.value = "raise", "AssertionError"
+                f.ghost["__raise_node__"] = node
+                out.append(f)
+            if v is not False:
+                st.assume(v)
+                out.append(st)
+            return out
         self.oblige_and_assume(st, v, "assert", node, ast.unparse(node.test)[:160])
         return [st]
 
@@ -768,6 +809,7 @@ class Exec:
             itv = z3.Int(uid("it"))
             b.assume(itv >= 0, self.cmp_lt(itv, seq.n))
             bind_it(b, itv)
+            b.locals["__it%d__" % ordinal] = itv      # visible to ghost hooks as loop_it(ordinal)
             b.assume(*inv_goals(b))
             self.assign(node.target, seq.at(itv), b)
             body_in = [b]
@@ -1487,6 +1529,8 @@ class Exec:
             for e in node.values:
                 v = self.truth(self.eval(e, st))
                 vals.append(v)
+                if v is (False if is_and else True):
+                    break       # short circuit: the remaining operands are not evaluated
                 # later operands are only evaluated when this one is true (and) / false (or)
                 toks.append(st.push(v if is_and else znot(v)))
         finally:
